@@ -84,18 +84,27 @@ def shard(sh):
     masks, N, prefixes, deadline = sh
     drv = get_driver('asan')
     st = ShardStats('E1 N=%d x failing invocation' % N)
+    bypath = N >= 100       # validation callbacks registered with cfg_set_validate_func by schema path instead of in the declarations
+    N = N % 100
+    VBITS = {1: b'a', 3: b'l', 4: b's', 6: b's|x'}
     for mask in masks:
         sch = variant(mask)
-        drv.define_schema(sch.sid, sch.spec())
+        if bypath:
+            decl = variant(mask & ~sum(1 << b for b in VBITS))
+            decl = Schema('G%d' % mask, decl.opts)
+            reg = ['set_vf A %s 1' % enc(path) for bit, path in sorted(VBITS.items()) if mask >> bit & 1]
+        else:
+            decl, reg = sch, []
+        drv.define_schema(decl.sid, decl.spec())
         alpha = S.alphabet_for(sch)
         batch = []
 
         def flush():
-            cases = [Case(['init A %s 0' % sch.sid, 'cb_fail %d' % k, 'parse_buf A ' + enc(trace.text_of(words)), 'dump A 0']) for (words, k, _, _, _) in batch]
+            cases = [Case(['init A %s 0' % decl.sid] + reg + ['cb_fail %d' % k, 'parse_buf A ' + enc(trace.text_of(words)), 'dump A 0']) for (words, k, _, _, _) in batch]
             for (words, k, res, store, par), c, r in zip(batch, cases, drv.run(cases)):
                 st.evaluations += 1
                 st.transitions += len(res.events) + 1
-                script = 'schema %s %s\n%s' % (sch.sid, sch.spec(), c.script())
+                script = 'schema %s %s\n%s' % (decl.sid, decl.spec(), c.script())
                 if r.status in ('crash', 'hang'):
                     st.violation('%s:%s' % (r.status, engine.sanitizer_summary(r.info)), script, '', engine.excerpt(r.info))
                     continue
@@ -231,6 +240,18 @@ def main():
             for ch in engine.chunks(frontier, 12):
                 shards.append((masks, N, ch, dl))
         engine.phase(ck, 'E1 N=%d x 128 callback subsets x failing invocation k = 0..K' % N, shard, shards, subsets=128)
+    # the same with the validation callbacks registered by schema path (cfg_set_validate_func) before the parse
+    Nb = 4 if quick else 6
+    shards = []
+    full = variant(127)
+    alpha = S.alphabet_for(full)
+    inner, frontier = trace.viable_prefixes(full, 0, alpha, 2)
+    vmasks = [m for m in range(128) if m & 0b1011010]
+    for masks in engine.chunks(vmasks, 4):
+        shards.append((masks, 100, inner, dl))
+        for ch in engine.chunks(frontier, 12):
+            shards.append((masks, 100 + Nb, ch, dl))
+    engine.phase(ck, 'E1 N=%d with validation callbacks registered by schema path (cfg_set_validate_func)' % Nb, shard, shards, subsets=len(vmasks))
     ck.assumptions = ['validation calls: the log is compared after collapsing consecutive identical calls (same option, same count, same last value)',
                       'after a failing invocation the option of the item in which it happened is not compared']
     ck.finish('schema variant (subset of 7 callback slots) x E1 token sequence x index of the failing invocation; non-trivial = distinct (expected log, verdict)')
